@@ -485,3 +485,34 @@ func VerifC16Emissions() {
 	verif.Assert("host-told-of-each-emission-once", len(told) == 2)
 	verif.Reach("emissions-done")
 }
+
+// VerifC16Targets: the mcrew routing target as a solver variable: "to" is an arbitrary string; a machine is
+// walked (once) iff the string is its id; reserved service names and unknown ids reach no machine.
+func VerifC16Targets() {
+	verif.MapOrderInsertion(true)
+	ctx, cancel := context.WithCancel(context.Background())
+	defer cancel()
+	s, cleanup := c16Service(ctx)
+	defer cleanup()
+	verif.Assert("add-a", s.AddMachine(ctx, "flip", "a", "", nil) == nil)
+	verif.Assert("add-b", s.AddMachine(ctx, "flip", "b", "", nil) == nil)
+	to := verif.AnyString("to")
+	verif.Assume(to != "timers" && to != "ws" && to != "http") // service requests need their own message shapes
+	processed, err := s.Process(ctx, map[string]interface{}{"to": to, "go": "x"}, nil)
+	verif.Assert("process-ok", err == nil)
+	for _, mid := range []string{"a", "b"} {
+		w, have := processed[mid]
+		verif.Assert("walked-iff-named", have == (to == mid))
+		if have && w != nil {
+			n := 0
+			for _, sd := range w.Strides {
+				if sd.Consumed != nil {
+					n++
+				}
+			}
+			verif.Assert("message-presented-exactly-once", n == 1)
+		}
+	}
+	verif.Assert("nobody-else-walked", len(processed) <= 1)
+	verif.Reach("targets-done")
+}
